@@ -90,8 +90,11 @@ def _replay_one(case, variant, rng):
     qs = list(case['queries'])
     orders = [qs, qs[::-1], rng.sample(qs, len(qs))]
     for order in orders:
-        for q in order:
-            raw = np.asarray(h(_tm(ts, q['t']))).ravel()
+        # all answers of one pass are fetched first and compared afterwards: an answer must stay what it was when later
+        # queries are made (a caller may hold hist(t - d1) while asking for hist(t - d2))
+        held = [(q, h(_tm(ts, q['t']))) for q in order]
+        for q, ans in held:
+            raw = np.asarray(ans).ravel()
             exp = [Fraction(n, d) for n, d in q['r']]
             obs = [Fraction(float(x.real)) for x in raw]
             if dtype.startswith('complex'):
